@@ -304,6 +304,14 @@ func (s *StressSvc) Echo(req *Blob, res *Blob) error {
 	return err
 }
 
+// Same answers with the very slice it was given as argument (and, in retention runs, keeps it like every handler does)
+func (s *StressSvc) Same(req *Blob, res *Blob) error {
+	conn, has := s.begin(req.B)
+	defer s.end(conn, has)
+	res.B = req.B
+	return nil
+}
+
 // EchoCtx: (ctx, args, *reply) error
 func (s *StressSvc) EchoCtx(ctx context.Context, req *Blob, res *Blob) error {
 	out, err := s.do(req.B)
@@ -528,11 +536,30 @@ func runStress(c StressCfg) StressResult {
 	// wait for the listener
 	var conns []*rpc.Conn
 	deadline := time.Now().Add(5 * time.Second)
+	relisten := 0
 	for len(conns) < c.Conns {
 		cn, err := rpc.DialWithOptions(addr, copts)
+		if err == nil && len(conns) == 0 {
+			// the address answers - but is it this scenario's server? (a Listen that failed because another process holds the
+			// port reports it at once)
+			select {
+			case e := <-lerr:
+				cn.Close()
+				err = fmt.Errorf("listen failed: %v", e)
+				lerr <- e
+			case <-time.After(3 * time.Millisecond):
+			}
+		}
 		if err != nil {
 			select {
 			case e := <-lerr:
+				if relisten < 8 && c.Network != "unix" && c.Network != "frag" && c.Network != "inproc" {
+					// the port was taken by someone else after all: another one
+					relisten++
+					addr = freeTCPAddr()
+					go func() { lerr <- server.ListenWithOptions(addr, sopts) }()
+					continue
+				}
 				res.Skipped = "listen failed: " + fmt.Sprint(e)
 				return res
 			default:
@@ -655,13 +682,16 @@ func runStress(c StressCfg) StressResult {
 					w := wcall{Conn: ci, Gor: g, Idx: i, Size: c.Sizes[r.Intn(len(c.Sizes))], Form: forms[r.Intn(len(forms))], Method: methods[r.Intn(len(methods))]}
 					if c.FailEvery > 0 && w.Size >= hdrLen && r.Intn(c.FailEvery) == 0 {
 						w.Fail = true
-						w.ErrLen = []int{1, 30, 127, 128, 129, 300, 16383, 16384, 20000}[r.Intn(9)]
+						w.ErrLen = []int{1, 30, 127, 128, 129, 200, 255, 256, 300, 16383, 16384, 20000}[r.Intn(12)]
 					}
 					if c.MissEvery > 0 && r.Intn(c.MissEvery) == 0 {
 						w.Miss, w.Fail = true, false
 					}
 					if c.CliPipe && c.Callers == 1 {
 						w.Form = "go" // order is promised to asynchronous calls of one goroutine
+						if i%4 == 3 {
+							w.Form = "rta" // ... whichever asynchronous form issues them: RoundTrip with the shared done channel
+						}
 					}
 					flush := r.Intn(3) == 0 // drawn for every call so that the workload does not depend on the configuration
 					sent := w.payload(c.Seed)
@@ -715,7 +745,12 @@ func runStress(c StressCfg) StressResult {
 						<-call.Done
 						record(w, call.Error, get(), sent)
 					default:
-						call := cn.Go(method(w), args, reply, done)
+						var call *rpc.Call
+						if w.Form == "rta" {
+							call = cn.RoundTrip(&rpc.Call{ServiceMethod: method(w), Args: args, Reply: reply, Done: done})
+						} else {
+							call = cn.Go(method(w), args, reply, done)
+						}
 						asyncs = append(asyncs, pend{w, sent, get, call})
 						if c.OneAtATime || (!c.CliPipe && flush) {
 							for range asyncs {
@@ -835,6 +870,36 @@ func runStress(c StressCfg) StressResult {
 		}
 		if !bytes.Equal(svc.big, want) {
 			fail("the content a handler owns and answers from was modified by the library")
+		}
+	}
+	if c.Retain && c.Codec != "code" {
+		// user code hands what it kept back to the library: kept replies are forwarded as arguments of further calls, and a
+		// handler answers with the slice it was given (and keeps); none of that makes the bytes the library's to recycle
+		omu.Lock()
+		fwd := append([][]byte(nil), keptReplies...)
+		omu.Unlock()
+		nf := 0
+		for i := len(fwd) - 1; i >= 0 && nf < 8; i-- {
+			if len(fwd[i]) < hdrLen {
+				continue
+			}
+			nf++
+			cn := conns[i%len(conns)]
+			reply, get := newMsg(nil)
+			m := "S.Echo"
+			if nf%2 == 0 {
+				m = "S.Same"
+			}
+			sentMu.Lock()
+			sentCount[string(fwd[i])]++
+			sentMu.Unlock()
+			if err := cn.Call(m, &Blob{B: fwd[i]}, reply); err != nil {
+				if !(len(fwd[i]) >= hdrLen && fwd[i][8]&1 != 0) {
+					fail("forwarding a kept reply (%d bytes) as an argument failed: %v", len(fwd[i]), err)
+				}
+			} else if m == "S.Same" && !bytes.Equal(get(), fwd[i]) {
+				fail("S.Same did not answer with its argument (%d bytes)", len(fwd[i]))
+			}
 		}
 	}
 	if c.Retain {
@@ -1053,6 +1118,7 @@ type StreamScenario struct {
 	SrvDirect  bool   `json:"srvdirect"`
 	SrvPipe    bool   `json:"srvpipe"`
 	CliDirect  bool   `json:"clidirect"`
+	CliPipe    bool   `json:"clipipe"` // the client connection pipelines (streams opened among in-order unary calls)
 	Streams    int    `json:"streams"`
 	PushFirst  int    `json:"pushfirst"`
 	Msgs       int    `json:"msgs"`
@@ -1134,6 +1200,9 @@ func runStreamScenario(c StreamScenario) StressResult {
 	}
 	if c.CliDirect {
 		conn.SetDirectIO(true)
+	}
+	if c.CliPipe {
+		conn.SetPipelining(true)
 	}
 	started0, returned0 := atomic.LoadInt64(&chatStarted), atomic.LoadInt64(&chatReturned)
 	var wg sync.WaitGroup
